@@ -10,4 +10,29 @@ PROPS = {
             'the ~50 checkers reach the diagnostics list only through add_diagnostic (scan, not proof)',
         ],
     },
+    'C19': {
+        'units': [{'unit': 'c19_match'}],
+        'engines': [
+            {'kind': 'kani', 'tier': 'thorough', 'crate': 'c19',
+             'harnesses': [
+                 {'name': 'is_match_contract', 'assert_tag': 'C19.is_match', 'label': 'C19.match.contract',
+                  'params': ['a0', 'a1', 'd0', 'd1', 'kind_sel', 'same_code', 'is_disable']},
+                 {'name': 'is_match_reachable', 'covers_required': True},
+             ]},
+        ],
+        'counterexample_engine': {'kind': 'kani', 'crate': 'c19', 'harnesses': [
+            {'name': 'is_match_contract', 'assert_tag': 'C19.is_match', 'label': 'C19.match.contract',
+             'params': ['a0', 'a1', 'd0', 'd1', 'kind_sel', 'same_code', 'is_disable']}], 'for': r'DiagnosticAction::is_match'},
+        'level': 'proof',
+        'level_text': 'Verus proves, for all ranges, kinds and codes, that DiagnosticAction::is_match returns true exactly when the suppression region shares a byte with the diagnostic (or contains a zero-width one) and the kind/code matches, and that the per-file scan returns true exactly when some recorded region matches; in the thorough tier Kani/CBMC proves the same is_match contract on the compiled real crate over the full u32 domain (loop-free, complete) and supplies the counterexample on failure.',
+        'level_note': 'text-size shim (cross-checked by Kani), DiagnosticCode/FileId opaque with obeys_key_model; the construction of the regions (disable-next-line / disable-line / block ranges) is covered by unit c19_ranges when present, otherwise not covered',
+        'not_covered': ['analyze_diagnostic_* AST plumbing (which comment owns which block)', 'checkers that bypass add_diagnostic (none found by scan)'],
+    },
+    'C36': {
+        'units': [{'unit': 'c36_exit'}],
+        'level': 'proof',
+        'level_text': 'Verus proves on the extracted body of output_result\'s receive loop, for every diagnostics vector, filter and flag: the writer is handed exactly the order-preserving sub-list that passes --severity, once, under its own file id; the error flag becomes true exactly when a reported diagnostic is an error or (with --warnings-as-errors) a warning; the returned status is non-zero exactly when the flag is set. DiagnosticSeverityFilter::allows is proved against the threshold table.',
+        'level_note': 'Vec::retain std contract assumed; the async channel/termination logic (count == total_count) and the three writers\' formatting (text/JSON/SARIF) are not covered: the writers are abstracted to a ghost log; counters are usize (no overflow below 2^64 diagnostics)',
+        'not_covered': ['channel receive loop / completion count (async)', 'JSON, SARIF and text writers: that each logged diagnostic is rendered once under its file', 'main-workspace file selection (get_main_workspace_file_ids)'],
+    },
 }
